@@ -39,6 +39,7 @@ struct C04 : Check {
 		G(Rng &r_, Plan &p_, bool v) : r(r_), p(p_), vi(v) {}
 		void ex(const std::string &line, const char *kind = "mod") { Step s = ex_step(p, line); s.meta = Json::obj(); s.meta.set("k", kind); p.steps.push_back(s); }
 		void keys(const std::string &k, const char *kind = "mod") { Step s = keys_step(k); s.meta = Json::obj(); s.meta.set("k", kind); p.steps.push_back(s); }
+		int gpu = 0;
 		std::string word() { return "w" + std::to_string(++uniq) + gen_line(r, r.range(0, 5), A_LOWER); }
 		std::string textblock(int n) { std::string t; for (int i = 0; i < n; i++) t += word() + (r.chance(1, 3) ? " " + word() : "") + "\n"; return t; }
 		std::string filter() {
@@ -70,7 +71,8 @@ struct C04 : Check {
 		case 8: g.ex(g.range() + "s/w[0-9]*/<&>/"); break;
 		case 9: g.ex("g/" + std::string(1, (char) ('a' + r.below(26))) + "/" + (r.chance(1, 2) ? "d" : "s/$/!/")); break;
 		case 10: g.ex("v/" + std::string(1, (char) ('a' + r.below(26))) + "/s/^/#/"); break;
-		case 11: g.ex("g/w/" + std::string(r.chance(1, 2) ? "pu" : "-1d")); break;
+		// (a put under a global multiplies the buffer by the register: at most twice per plan, or buffers explode)
+		case 11: g.ex("g/w/" + std::string(r.chance(1, 2) && g.gpu++ < 2 ? "pu" : "-1d")); break;
 		case 12: case 13: g.ex(g.range() + "!" + g.filter()); break;
 		case 14:
 			if (r.chance(1, 2)) g.ex(g.addr() + "r R"); else g.ex(g.addr() + "r !" + g.filter());
